@@ -8,6 +8,7 @@ Spec.Decimal through the Lean driver (`dec` line); all other registers, PC and m
 with the binary Spec's frame (cpu_diff)."""
 import json
 import multiprocessing
+import os
 import random
 
 import common
@@ -41,9 +42,32 @@ def valid_bcd(x):
     return (x & 15) < 10 and (x >> 4) < 10
 
 
+def decimal_warmup(classes, dev, triples, reverse=False):
+    """Cross-device history: the OTHER devices (the 65Org16 included) execute decimal-mode ADC #m / SBC #m for
+    the same (A, M, C) triples in this process first.  Instances share no state (C14), so what the device under
+    test then computes must not depend on it; a memo or table filled by one device and read by another does."""
+    others = [d for d in ('6502', '65C02', '65Org16') if d != dev]
+    if reverse:
+        others.reverse()
+    for od in others:
+        u = classes[od](memory=[0] * 0x10000)
+        for (a, m, c) in triples:
+            for opc in (0x69, 0xe9):
+                u.memory[0x200], u.memory[0x201] = opc, m
+                u.pc, u.a, u.p = 0x200, a, 0x38 | c
+                try:
+                    u.step()
+                except Exception:
+                    u = classes[od](memory=[0] * 0x10000)
+    return others
+
+
 def _worker(args):
     dev, triples, seed = args
     classes = device_classes()
+    warm = None
+    if seed % 2 == 1 and not os.environ.get('VERIF_NO_NEIGHBOURS'):
+        warm = decimal_warmup(classes, dev, triples, reverse=bool((seed // 2) % 2))
     modes = classes[dev].disassemble
     ops = _opcodes(dev, modes)
     rng = random.Random(seed)
@@ -112,6 +136,9 @@ def _worker(args):
                 key = dict(dev=dev, aspect='decimal-history', fields=','.join(diff))
                 note = ' [on an instance that executed other decimal operations before; a fresh instance differs]'
                 rpl['previous_case_on_the_same_instance'] = hist
+            if warm:
+                rpl['other_devices_first'] = dict(order=warm, triple=[a, m, c])
+                note += ' [in a process where %s executed the same decimal operations first]' % ', '.join(warm)
             out['findings'].append(dict(
                 key=key,
                 what='%s %s %s $%02x D=1 A=$%02x M=$%02x C=%d: got %s, Clark says %s%s' % (dev, name, mo, opc, a, m, c, got, exp, note),
@@ -137,8 +164,8 @@ def explore(ctx):
         for i in range(nch):
             jobs.append((dev, triples[i::nch], ctx.seed * 31 + k))
             k += 1
-    with multiprocessing.Pool(16) as pool:
-        res = pool.map(_worker, jobs)
+    with multiprocessing.Pool(16, maxtasksperchild=1) as pool:      # one process per job (cross-device warm-up)
+        res = pool.map(_worker, jobs, chunksize=1)
     n = sum(r['n'] for r in res)
     sig = set()
     seen = {}
@@ -164,6 +191,10 @@ def replay(ctx, path):
         classes = device_classes()
         c = Case.from_json(rp['case'])
         W, AW = widths(c.dev)
+        w = rp.get('other_devices_first')
+        if w:
+            order = decimal_warmup(classes, c.dev, [tuple(w['triple'])], reverse=(w['order'] != [d for d in ('6502', '65C02', '65Org16') if d != c.dev]))
+            print('history  : %s executed the same decimal ADC/SBC in this process first' % ', '.join(order))
         mem = RecMem(c.seed, W, c.ov)
         mpu = classes[c.dev](memory=mem, pc=c.pc)
         mpu.a, mpu.x, mpu.y, mpu.sp, mpu.p = c.a, c.x, c.y, c.sp, c.p
